@@ -367,7 +367,30 @@ def run_client(case):
     return r
 
 
-RUNNERS = {'history': run_history, 'history1': run_history_single, 'program': run_program, 'client': run_client}
+def run_hashseed(case):
+    """Replay: recompute the outcome table under the given hash seeds in fresh interpreters and compare."""
+    import json
+    import shutil
+    import subprocess
+    import sys
+    import tempfile
+    tmp = tempfile.mkdtemp(dir=os.environ.get('VMC_SCRATCH', '/var/tmp'))
+    try:
+        tables = []
+        for hs in case.get('hash_seeds', ['0', '1']):
+            path = os.path.join(tmp, 'h%s.json' % hs)
+            subprocess.run([sys.executable, '-W', 'ignore', '-m', 'vmc.checks.c02'], check=True,
+                           env=dict(os.environ, PYTHONHASHSEED=hs, VMC_C02_DUMP=path),
+                           cwd=os.path.dirname(os.path.dirname(os.path.dirname(os.path.abspath(__file__)))))
+            tables.append(json.load(open(path)))
+    finally:
+        shutil.rmtree(tmp, ignore_errors=True)
+    diff = sorted({k for b in tables[1:] for k in tables[0] if tables[0].get(k) != b.get(k)})
+    return bad('C02:depends-on-hash-seed', {'cases': diff[:3], 'n_differing': len(diff)}) if diff else ok()
+
+
+RUNNERS = {'history': run_history, 'history1': run_history_single, 'program': run_program, 'client': run_client,
+           'hashseed': run_hashseed}
 
 
 def replay(case):
@@ -436,26 +459,36 @@ def run(ctx):
         'next) on one generator object; the derivation of the per-batch seed itself is not constrained here (C15)',
         'the model_name meta field is not part of any observation',
     ]
-    if not q:
-        # dict/set iteration order: repeat the program enumeration under another hash seed and compare outcomes
+    if True:
+        # dict/set iteration order: repeat a fixed outcome table (measured calls + all recording programs of <= 3 nodes)
+        # in fresh interpreters under different string-hash seeds and compare (quick: 4 processes, thorough: 8)
         import subprocess
         import sys
         import json
         import tempfile
         tmp = tempfile.mkdtemp(dir=os.environ.get('VMC_SCRATCH', '/var/tmp'))
         try:
-            mine = os.path.join(tmp, 'h0.json')
-            other = os.path.join(tmp, 'h1.json')
-            for path, hs in ((mine, '0'), (other, '1')):
+            hseeds = ['0', '1', '2', '3'] if q else ['0', '1', '2', '3', '4', '5', '6', '7']
+            procs = []
+            for hs in hseeds:
+                path = os.path.join(tmp, 'h%s.json' % hs)
                 env = dict(os.environ, PYTHONHASHSEED=hs, VMC_C02_DUMP=path)
-                subprocess.run([sys.executable, '-W', 'ignore', '-m', 'vmc.checks.c02'], env=env, check=True,
-                               cwd=os.path.dirname(os.path.dirname(os.path.dirname(os.path.abspath(__file__)))))
-            a = json.load(open(mine))
-            b = json.load(open(other))
-            if a != b:
-                diff = [k for k in a if a.get(k) != b.get(k)][:3]
-                ctx.record({'kind': 'hashseed', 'keys': diff}, bad('C02:depends-on-hash-seed', {'cases': diff}), 'hashseed')
+                procs.append((path, subprocess.Popen(
+                    [sys.executable, '-W', 'ignore', '-m', 'vmc.checks.c02'], env=env,
+                    cwd=os.path.dirname(os.path.dirname(os.path.dirname(os.path.abspath(__file__)))))))
+            tables = []
+            for path, pr in procs:
+                if pr.wait() != 0:
+                    raise RuntimeError('hash-seed table subprocess failed')
+                tables.append(json.load(open(path)))
+            a = tables[0]
+            diff = sorted({k for b in tables[1:] for k in a if a.get(k) != b.get(k)})
+            if diff:
+                ctx.record({'kind': 'hashseed', 'keys': diff[:3], 'hash_seeds': hseeds},
+                           bad('C02:depends-on-hash-seed', {'cases': diff[:3], 'n_differing': len(diff)}), 'hashseed')
             else:
+                ctx.record({'kind': 'hashseed', 'hash_seeds': hseeds},
+                           dict(ok(), evals=len(a) * len(hseeds), distinct=len(a)), 'hashseed')
                 ctx.count(hashseed_table_entries=len(a))
         finally:
             import shutil
@@ -475,13 +508,17 @@ def _dump_table(path):
         for seed in seeds:
             with pin.pinned(0):
                 table[repr((call, seed))] = digest(measured(call, seed, 2), opaque_by_id=False)
+    # several naming schemes: the iteration order of a set of names under one hash seed is the same for every program
+    # that uses the same names, so one scheme alone could coincide between two hash seeds
+    schemes = [NAMES, ['theta', 'alpha', 'sim', 'beta'], ['n10', 'n2', 'x', 'm'], ['Q', 'p', 'Zed', 'k1']]
     for n in range(1, 4):
         for parents in dags(n):
             for kinds in itertools.product('PS', repeat=n):
-                case = {'parents': [list(p) for p in parents], 'kinds': ''.join(kinds), 'names': NAMES[:n],
-                        'runs': [(0, 0, 2), (5, 2, 1)]}
-                r = run_program(case)
-                table[repr((case['parents'], case['kinds']))] = r.get('outcome') or repr(r.get('viol'))
+                for si, names in enumerate(schemes):
+                    case = {'parents': [list(p) for p in parents], 'kinds': ''.join(kinds), 'names': names[:n],
+                            'runs': [(0, 0, 2), (5, 2, 1)]}
+                    r = run_program(case)
+                    table[repr((case['parents'], case['kinds'], si))] = r.get('outcome') or repr(r.get('viol'))
     with open(path, 'w') as f:
         json.dump(table, f, sort_keys=True)
 
